@@ -687,7 +687,18 @@ func runC20Facade(c *Ctx) {
 		}
 		hc, ok := call.Call.Args[0].(*ssa.Call)
 		if !ok || staticCallee(&hc.Call) != hd || len(hc.Call.Args) < 2 {
-			bad = append(bad, p.Pos(ret.Pos())+": Get is not applied to the result of HandleDumpStruct")
+			// or: HandleDumpStruct (which returns its receiver) was called on the very same dumper before
+			hc = nil
+			for _, r := range refs(call.Call.Args[0]) {
+				if c2, isCall := r.(*ssa.Call); isCall && staticCallee(&c2.Call) == hd && len(c2.Call.Args) >= 2 && c2.Call.Args[0] == call.Call.Args[0] {
+					if c2.Block().Dominates(call.Block()) && (c2.Block() != call.Block() || indexIn(c2) < indexIn(call)) {
+						hc = c2
+					}
+				}
+			}
+		}
+		if hc == nil {
+			bad = append(bad, p.Pos(ret.Pos())+": Get is not applied to a dumper that HandleDumpStruct has filled")
 			continue
 		}
 		vo, ok := hc.Call.Args[1].(*ssa.Call)
